@@ -10,7 +10,7 @@ use crate::observe::{run_deltas, RunErr};
 use proptest::prelude::*;
 use std::collections::{BTreeMap, BTreeSet};
 
-fn ledger_params(tier: Tier) -> GenParams {
+pub fn ledger_params(tier: Tier) -> GenParams {
     let mut p = GenParams::ledger();
     p.afs = vec!["", "Spouse", "My  Kid"]; // the identity's premise: every affiliate non-registered
     p.manual_sfla = false; // and no manual superficial-loss entries
@@ -101,7 +101,7 @@ pub fn identity(sec_rows: &[HRow], opening: Option<(Rat, Rat)>, tool: &[NRow], o
     Ok(())
 }
 
-fn check(case: &LedgerCase, obs: &mut Obs) -> Verdict {
+pub fn check(case: &LedgerCase, obs: &mut Obs) -> Verdict {
     let files = case.files();
     let csv = &files[0].1;
     let res = match run_deltas(&files, &case.run_opts()) {
